@@ -210,6 +210,10 @@ def extract_unit(path, variant=(), roots=None, cache_tag=None):
     ukey = _sha((path + '\0' + ' '.join(flags)).encode())[:20]
     cdir = os.path.join(CACHE, th)
     os.makedirs(cdir, exist_ok=True)
+    try:
+        os.utime(cdir, None)
+    except OSError:
+        pass
     pk = os.path.join(cdir, ukey + '.pkl')
     if os.path.exists(pk):
         try:
@@ -240,13 +244,16 @@ def extract_unit(path, variant=(), roots=None, cache_tag=None):
     return obj
 
 
-def prune_cache(keep=3):
+def prune_cache(keep=4, min_age_s=3600):
+    """drop cache directories of older trees; never one used in the last hour (checks may run in parallel)"""
     try:
+        now = time.time()
         ds = [os.path.join(CACHE, d) for d in os.listdir(CACHE)]
         ds = [d for d in ds if os.path.isdir(d)]
         ds.sort(key=os.path.getmtime, reverse=True)
         for d in ds[keep:]:
-            shutil.rmtree(d, ignore_errors=True)
+            if now - os.path.getmtime(d) > min_age_s:
+                shutil.rmtree(d, ignore_errors=True)
     except OSError:
         pass
 
